@@ -45,6 +45,10 @@ func init() {
 		c.Weights["scalein"] = 8
 		c.Weights["mkpod"] = 5
 		c.Weights["podrm"] = 4
+		c.Weights["template"] = 8
+		if r.Chance(0.6) {
+			c.Graceful = true // terminating pods linger: scale-in and rollout overlap
+		}
 	}}
 
 	profiles["parallel"] = &Profile{Name: "parallel", Tweak: func(r *PRNG, c *Config) {
